@@ -97,6 +97,16 @@ func c05Scenarios() []dbScenario {
 	}
 }
 
+// c05FineScenarios run in the build in which every statement of the table reader, its indexes and the memory-mapped
+// record reader is a scheduling point: two clients reading keys that live in the same flushed table.
+func c05FineScenarios() []dbScenario {
+	return []dbScenario{
+		{name: "S8-concurrent-reads-of-one-table", mem: 1 << 20, thresh: 10, quickBound: 1, thoroughBound: 2,
+			setup:   []cop{{"put", "a", "1"}, {"put", "b", bigVal}, {"rot", "", ""}},
+			threads: [][]cop{{{"get", "a", ""}, {"get", "b", ""}}, {{"get", "b", ""}, {"get", "a", ""}}}},
+	}
+}
+
 // c19BgScenarios: Close against the running background compaction goroutine (and the flusher).
 func c19BgScenarios() []dbScenario {
 	two := []cop{{"put", "a", "1"}, {"rot", "", ""}, {"put", "b", "1"}, {"rot", "", ""}}
@@ -113,6 +123,11 @@ func c19BgScenarios() []dbScenario {
 }
 
 func c05ScenarioByName(n string) schedScenario {
+	for _, s := range c05FineScenarios() {
+		if s.name == n {
+			return s
+		}
+	}
 	for _, s := range c19BgScenarios() {
 		if s.name == n {
 			return s
@@ -139,6 +154,14 @@ func (c c05) Run(ctx *core.Ctx) error {
 		"the compaction ticker goroutine is not part of the scenarios; one cycle runs in a harness goroutine through the tag-guarded helper"}
 	ctx.CaseTimeout = 5 * time.Minute
 	runSchedCheck(ctx, scns, func(sc schedCase) json.RawMessage { return core.J(c05Case{Sched: sc}) })
+	// reader-level interleavings of concurrent Gets (finer instrumented build)
+	ctx.WorkerBin = binPath("vschedfine")
+	var fine []schedScenario
+	for _, s := range c05FineScenarios() {
+		fine = append(fine, s)
+	}
+	ctx.Ev.Bounds["fine_scenarios"] = "S8: two clients x two Gets of keys in one flushed table, every statement of the table reader / index / mmap reader is a scheduling point"
+	runSchedCheck(ctx, fine, func(sc schedCase) json.RawMessage { return core.J(c05Case{Sched: sc}) })
 	return nil
 }
 
